@@ -187,7 +187,7 @@ def mix_weights(rep: Report, rng: random.Random, n: int) -> None:
 def run(rep: Report, tier: str) -> None:
     rng = random.Random(common.seed() * 13 + 2)
     quick = tier == "quick"
-    res = common.run_tlc("Tape_MC", "Tape_MC_resid.cfg" if quick else "Tape_MC_resid6.cfg", coverage=True, timeout=900, tag="tape")
+    res = common.run_tlc("Tape_MC", "Tape_MC_resid.cfg" if quick else "Tape_MC_resid8.cfg", coverage=True, timeout=900, tag="tape")
     common.tlc_must_pass(res, "Tape_MC resid")
     rep.add_tlc(res)
     r7 = common.run_tlc("Tape_MC", "Tape_MC_resid7.cfg", timeout=900, tag="tape7")
@@ -204,11 +204,11 @@ def run(rep: Report, tier: str) -> None:
     for p in progs:
         if p["addbwd"] != "1":
             raise common.MachineryError("spec emitted an attenuating add")
-        check_program(rep, p, rng, 2 if quick else 8)
+        check_program(rep, p, rng, 2 if quick else 4)
     mix_weights(rep, rng, 40 if quick else 4000)
     rep.exhaustive = True
     rep.traces = len(progs)
-    rep.rule = "every residual program (ordered forest) with <= 4 (thorough: 6) layers emitted by TLC with its path coefficient bags; 2-4 trials each (random taus in [1e-3,1e3], linear / nonlinear / unit-scaled branches, residual_apply and split/add); non-trivial = at least 2 layers"
+    rep.rule = "every residual program (ordered forest) with <= 4 (thorough: 8) layers emitted by TLC with its path coefficient bags; 2-4 trials each (random taus in [1e-3,1e3], linear / nonlinear / unit-scaled branches, residual_apply and split/add); non-trivial = at least 2 layers"
     rep.sample(progs[1])
     rep.sample({"par": progs[-1]["par"], "n_paths": len(progs[-1]["paths"])})
     rep.assumptions += ["float64, tolerance 1e-10 relative on outputs and gradients", "branch maps drawn from {linear, tanh, affine+tanh, U.gelu, U.linear}"]
@@ -224,7 +224,7 @@ def replay(rep: Report, path: str) -> None:
     if c.get("kind") == "mix":
         mix_weights(rep, random.Random(1), 50)
         return
-    res = common.run_tlc("Tape_MC", "Tape_MC_resid6.cfg", timeout=900, tag="tape")
+    res = common.run_tlc("Tape_MC", "Tape_MC_resid8.cfg", timeout=900, tag="tape")
     common.tlc_must_pass(res, "Tape_MC resid")
     rep.add_tlc(res)
     for p in res.printed("PROG"):
